@@ -91,4 +91,4 @@ MIR = [
 MIR += [q for q in _c20.MIR if q.name.startswith('c20_compatible_')]
 MIR += [q for q in _c03.MIR if q.name.startswith(('c03_compatible_expired_', 'c03_next_epoch', 'c03_skip_epochs', 'c03_current_epoch', 'c03_baked'))]
 MIR += [q for q in _c10.MIR if q.name.startswith('c10_track_distances_') or q.name in ('c10_foreign_s1_c1_t2_o1',)]
-MIR += [q for q in _c02.MIR if q.name in ('c02_assign_c2_t2_r2', 'c02_assign_c2_t2_r3_x2')]
+MIR += [q for q in _c02.MIR if q.name in ('c02_assign_c2_t2_r2', 'c02_assign_c2_t2_r2_x2')]
